@@ -65,7 +65,7 @@ ASSUMPTIONS = [
 
 TIERS = {
     # levels: (R, largest number of variants for which a state is explored with R rewrites), tried in order
-    'quick': dict(R=2, levels=((2, 300),), nmax=6000, bmax=2 << 20, seg_depth=2, full=0, multi_pads=(2,)),
+    'quick': dict(R=2, levels=((2, 100),), nmax=6000, bmax=2 << 20, seg_depth=2, full=0, multi_pads=(2,)),
     'thorough': dict(R=3, levels=((3, 128), (2, 300)), nmax=6000, bmax=4 << 20, seg_depth=3, full=128, multi_pads=(2,)),
 }
 _tier = ['quick']
@@ -80,7 +80,7 @@ def bounds(tier):
             'full_product_up_to': c['full'], 'pads': [1, 2, 3, 4],
             'pads_in_variants_with_2_or_more_rewrites': list(c['multi_pads'] or (1, 2, 3, 4)), 'string_exhaustive_octets': 4,
             'set_permutation_members': 4, 'codec': CODEC,
-            'layers': 'L0,L0c,L1(W2,K2),L2,families; 2 environments' if tier == 'quick'
+            'layers': 'L0,L0c,families under EXPLICIT and AUTOMATIC TAGS; L1(W2,K2),L2 under EXPLICIT' if tier == 'quick'
             else 'L0,L0c,L1(W3,K2),L2,families; 5 environments'}
 
 
@@ -136,6 +136,10 @@ def units(tier):
     groups = {}
     order = []
     for u in std:
+        if tier == 'quick' and u.label.startswith(('L1/AUTOMATIC', 'L2/AUTOMATIC')):
+            # quick: constructors over the reduced alphabet are explored under EXPLICIT TAGS only (AUTOMATIC
+            # only renumbers their tags; the leaf-in-context layer L0c and the families keep both)
+            continue
         if u.label.startswith('fam/'):
             out.append(CUnit(u, [[t] for _, t, _ in u.tops], u.env, tier))
             continue
